@@ -72,9 +72,15 @@ type Gen struct {
 	allocs   map[string]allocType
 	preds    map[string]*typePredT
 	topCt    *Contract // contract of the function under verification
-	dynCount, dynQueries int
+	dynCount, dynQueries, dynUnknown int
 	fnValues map[string]*ssa.Function // function values taken in this proof context (term -> function)
+	fnResults map[string]*fnResultInfo // function values returned by contracted calls that have an "fnresult" contract
 	trackEsc bool // the function under verification claims noalloc: escaping allocations are counted in a ghost cell
+}
+
+type fnResultInfo struct {
+	ct   *Contract
+	orig map[string]tv // the parameters of the call that returned the function value
 }
 
 // ghostEscRef: the (negative, never allocated) reference whose slot 0 in the integer heap counts the allocations that can
@@ -82,7 +88,7 @@ type Gen struct {
 // function with a noalloc claim is verified
 const ghostEscRef = "(- 999979)"
 
-func (g *Gen) escNow(st *State) string { return sel(st.H["I"], ghostEscRef, "0") }
+func (g *Gen) escNow(st *State) string { return sel(st.H["G"], ghostEscRef, "0") }
 
 // escHavoc: something that may allocate happened (a call, a loop): the counter may have grown
 func (g *Gen) escHavoc(st *State, reach string) {
@@ -92,14 +98,14 @@ func (g *Gen) escHavoc(st *State, reach string) {
 	old := g.escNow(st)
 	n := g.havoc("esc", "Int")
 	g.assumeIf(reach, fmt.Sprintf("(>= %s %s)", n, old))
-	st.H["I"] = g.def("HI", heapSort["I"], sto(st.H["I"], ghostEscRef, "0", n))
+	st.H["G"] = g.def("HG", heapSort["G"], sto(st.H["G"], ghostEscRef, "0", n))
 }
 
 func (g *Gen) escBump(st *State) {
 	if !g.trackEsc {
 		return
 	}
-	st.H["I"] = g.def("HI", heapSort["I"], sto(st.H["I"], ghostEscRef, "0", fmt.Sprintf("(+ %s 1)", g.escNow(st))))
+	st.H["G"] = g.def("HG", heapSort["G"], sto(st.H["G"], ghostEscRef, "0", fmt.Sprintf("(+ %s 1)", g.escNow(st))))
 }
 
 // inPlace: the function under verification executes callee bodies / its own loops in place (inlines, unroll): calls through
@@ -204,7 +210,9 @@ func (g *Gen) tag(t types.Type) int {
 
 // ---------- sorts ----------
 
-var heapKinds = []string{"I", "B", "Q", "L", "P", "F", "R", "MD", "MI", "MB", "MQ", "ML", "MP", "MF", "MR"}
+// "G" is the ghost integer heap (virtual clock, timers, transmission counter, allocation counter): no program type has this kind,
+// so no program store can touch it
+var heapKinds = []string{"I", "B", "Q", "L", "P", "F", "R", "MD", "MI", "MB", "MQ", "ML", "MP", "MF", "MR", "G"}
 var heapSort = map[string]string{"R": "(Array Int (Array Int Int))", "I": "(Array Int (Array Int Int))", "B": "(Array Int (Array Int Bool))", "Q": "(Array Int (Array Int BSeq))", "L": "(Array Int (Array Int Slice))", "P": "(Array Int (Array Int Ptr))", "F": "(Array Int (Array Int Iface))"}
 var heapElemSort = map[string]string{"R": "Int", "I": "Int", "B": "Bool", "Q": "BSeq", "L": "Slice", "P": "Ptr", "F": "Iface"}
 var heapZero = map[string]string{"R": "zI", "I": "zI", "B": "zB", "Q": "zQ", "L": "zL", "P": "zP", "F": "zF"}
@@ -216,6 +224,10 @@ func init() {
 		heapZero["M"+k] = heapZero[k]
 		heapElemSort["M"+k] = heapElemSort[k]
 	}
+	heapSort["G"] = heapSort["I"]
+	heapZero["G"] = "zI"
+	heapElemSort["G"] = "Int"
+	arrcopyFn["G"] = "arrcopy"
 	heapSort["MD"] = heapSort["B"]
 	heapZero["MD"] = "zB"
 	heapElemSort["MD"] = "Bool"
@@ -447,7 +459,7 @@ func elemKind(k string) string {
 	if k == "MD" {
 		return "B"
 	}
-	if k == "R" || k == "MR" {
+	if k == "R" || k == "MR" || k == "G" {
 		return "I"
 	}
 	if strings.HasPrefix(k, "M") {
@@ -776,10 +788,7 @@ func (a *Act) load(st *State, t types.Type, ref, off string) string {
 
 func (a *Act) store(st *State, t types.Type, ref, off, v string) {
 	g := a.g
-	if g.trackEsc && a.curReach != "" {
-		// no program object lives at the ghost counter's reference
-		g.assumeIf(a.curReach, fmt.Sprintf("(not (= %s %s))", ref, ghostEscRef))
-	}
+
 	switch u := t.Underlying().(type) {
 	case *types.Struct:
 		s := g.sortOf(t)
@@ -1581,10 +1590,11 @@ func (a *Act) loopHead(b *ssa.BasicBlock, ins []edgeIn, backs []*ssa.BasicBlock,
 		}
 		st.H[k] = g.framedHeapK(a.nm(fmt.Sprintf("loop%d", idx)), k, g.entry.H[k], g.entry.Next, g.modRefs, g.modKindsOnly, true)
 	}
+	g.ghostForget(stIn, st, reach)
 	if g.trackEsc {
 		// the ghost counter of escaping allocations: at least what it was on entry to the loop (the frames above know
 		// nothing about it, or would reset it)
-		st.H["I"] = g.def("HI", heapSort["I"], sto(st.H["I"], ghostEscRef, "0", g.escNow(stIn)))
+		st.H["G"] = g.def("HG", heapSort["G"], sto(st.H["G"], ghostEscRef, "0", g.escNow(stIn)))
 		if allocates {
 			g.escHavoc(st, reach)
 		}
@@ -2055,8 +2065,9 @@ func (a *Act) fireCuts(b *ssa.BasicBlock, ii int, st *State, reach string) {
 					}
 					st.H[k] = g.framedHeapK(a.nm("cut"), k, g.entry.H[k], g.entry.Next, g.modRefs, g.modKindsOnly, true)
 				}
+				g.ghostForget(old, st, reach)
 				if g.trackEsc {
-					st.H["I"] = g.def("HI", heapSort["I"], sto(st.H["I"], ghostEscRef, "0", g.escNow(old)))
+					st.H["G"] = g.def("HG", heapSort["G"], sto(st.H["G"], ghostEscRef, "0", g.escNow(old)))
 				}
 				for _, t := range a.evalClauseAt(c.Cl, st, nil, nil) {
 					g.assumeIf(reach, t)
